@@ -3,7 +3,7 @@ import HpoModel.SetOps
 /-! Lemmas about the `HpoSet` model (`HpoModel/SetOps.lean`); core Lean only. -/
 namespace Hpo
 
-theorem getT_id {ts : List Term} {i : Nat} {t : Term} (h : getT ts i = some t) : t.id = i := by
+theorem getT_id_s {ts : List Term} {i : Nat} {t : Term} (h : getT ts i = some t) : t.id = i := by
   induction ts with
   | nil => simp [getT] at h
   | cons a ts ih =>
@@ -12,7 +12,7 @@ theorem getT_id {ts : List Term} {i : Nat} {t : Term} (h : getT ts i = some t) :
     · cases h; assumption
     · exact ih h
 
-theorem getT_mem {ts : List Term} {i : Nat} {t : Term} (h : getT ts i = some t) : t ∈ ts := by
+theorem getT_mem_s {ts : List Term} {i : Nat} {t : Term} (h : getT ts i = some t) : t ∈ ts := by
   induction ts with
   | nil => simp [getT] at h
   | cons a ts ih =>
@@ -21,17 +21,17 @@ theorem getT_mem {ts : List Term} {i : Nat} {t : Term} (h : getT ts i = some t) 
     · cases h; simp
     · exact List.mem_cons_of_mem _ (ih h)
 
-theorem Onto.get_id {o : Onto} {i : Nat} {t : Term} (h : o.get i = some t) : t.id = i := by
+theorem Onto.get_id_s {o : Onto} {i : Nat} {t : Term} (h : o.get i = some t) : t.id = i := by
   unfold Onto.get arenaGet at h
   split at h
   · cases h
-  · exact getT_id h
+  · exact getT_id_s h
 
-theorem Onto.get_mem {o : Onto} {i : Nat} {t : Term} (h : o.get i = some t) : t ∈ o.terms := by
+theorem Onto.get_mem_s {o : Onto} {i : Nat} {t : Term} (h : o.get i = some t) : t ∈ o.terms := by
   unfold Onto.get arenaGet at h
   split at h
   · cases h
-  · exact getT_mem h
+  · exact getT_mem_s h
 
 namespace SetOps
 open Group
@@ -128,7 +128,7 @@ theorem modifierFilter_ok (o : Onto) (xs : List Nat) (h : Resolves o xs) :
   | cons a xs ih =>
     obtain ⟨t, ht⟩ := h.head
     obtain ⟨R, hR, hmem⟩ := ih h.tail
-    have hid : t.id = a := Onto.get_id ht
+    have hid : t.id = a := Onto.get_id_s ht
     by_cases hm : o.isModifier t = true
     · refine ⟨R, by simp [modifierFilter, ht, hR, hm], ?_⟩
       intro x
